@@ -58,6 +58,9 @@ def c06(chk, thorough):
     nreg = threads.t3(chk, prog)
     chk.extra['dispatch_regions'] = nreg
     threads.t5(chk, prog)
+    if thorough:
+        from . import irscan
+        irscan.cross_check(chk, prog, sorted(prog.units))
     chk.floor('T1.shared-state', 15)
     chk.floor('T3.create-join', 13)
     chk.floor('T2.seeded-before-use', 4)
@@ -78,6 +81,9 @@ def c18(chk, thorough):
                        'unsigned wrap-around of a counter is not a termination argument and is not modelled']
     prog = load_program(chk)
     n = loopterm.run(chk, prog)
+    if thorough:
+        from . import irscan
+        irscan.cross_check(chk, prog, sorted(prog.units))
     if n < 400:
         chk.broke('only %d loops reachable from the C18 roots, floor 400' % n)
     if chk.extra.get('reachable_functions', 0) < 120:
@@ -310,6 +316,9 @@ def c13(chk, thorough):
     if n < 10:
         chk.broke('only %d range-slicing dispatch loops found, floor 10' % n)
     threads.t3(chk, prog)
+    if thorough:
+        from . import irscan
+        irscan.cross_check(chk, prog, sorted(prog.units))
     chk.floor('S1-3.partition', 10)
     chk.floor('S4.ownership', 7)
     chk.floor('T3.create-join', 10)
